@@ -3,14 +3,14 @@ package main
 func init() {
 	register(propSpec{
 		ID: "C07", Pkg: "props/c07", NeedCLI: true,
-		Rule: "cases: nucleotide alignments of 2-8 rows and 1-60 columns (300 in thorough) derived from a drawn ancestor (drawn base composition, some bases absent) by per-row substitution rates from 0 to 100% (identical, typical, nearly saturated, saturated, every site differs, transitions only, transversions only), in three residue tiers (ACGT; plus leading/trailing/internal gap runs, all-gap rows and columns; plus IUPAC ambiguity codes), x 7 models x gamma on/off x alpha (inverse-integer values and reals of [0.1,10]) x rm-gaps x gap-mut 0/1/2 x rm-ambiguous x weights {nil, all 1, positive reals, small integers} x sequence ranges {none, valid} x 1-3 threads; every alignment of 2 rows x 2 columns over ACGT-RYN (thorough: all 15 IUPAC codes and the gap, and 2 rows x 3 columns over ACGT-) x 38 option combinations, exhaustively; goalign compute distance executions (fasta/phylip input, -o, -a, -t, all flags, 8 kinds of invalid invocation). " +
-			"Oracle: independent counters on plain strings (difference iff the IUPAC sets are disjoint; transitions between unambiguous A<->G, C<->T; transversion iff one side within the purines and the other within the pyrimidines; gap modes from the flag help) and the published closed forms of raw, p, JC69, K2P, F81, F84 (Felsenstein-Churchill), TN93 (Tamura-Nei) with -ln x -> alpha(x^(-1/alpha)-1) for gamma, relative tolerance 1e-9; matrix predicates: symmetric, zero diagonal, 0 outside the ranges, no counted difference => |d| <= 1e-12, finite corrected d >= observed proportion, undefined estimator => NaN, +-Inf or 2*max over the defined entries (never when that maximum is 0), values above the documented limit 1e5 => the value or the substitute; Distance() on encoded rows agrees with the matrix; the command prints the same matrix with 12 decimals (compared at 1e-9) and fails exactly on the invalid invocations. A pair whose smallest log argument is within 1e-6 of 0 is not judged. " +
+		Rule: "cases: nucleotide alignments of 2-8 rows and 1-60 columns (300 in thorough) derived from a drawn ancestor (drawn base composition, some bases absent) by per-row substitution rates from 0 to 100% (identical, typical, nearly saturated, saturated, every site differs, transitions only, transversions only), in three residue tiers (ACGT; plus leading/trailing/internal gap runs, all-gap rows and columns; plus IUPAC ambiguity codes), x 7 models x gamma on/off x alpha (inverse-integer values and reals of [0.1,10]) x rm-gaps x gap-mut 0/1/2 x rm-ambiguous x weights {nil, all 1, positive reals, small integers} x sequence ranges {none, valid; disjoint, overlapping and nested} x 1-3 threads, one case in four on a model object that first computed another alignment with other gamma/alpha/weights (as the multi-alignment input and distboot do); every alignment of 2 rows x 2 columns over ACGT-RYN (thorough: all 15 IUPAC codes and the gap, and 2 rows x 3 columns over ACGT-) x 38 option combinations, exhaustively; goalign compute distance executions (fasta/phylip input, two alignments in one phylip file, -o, -a, -t, all flags, 8 kinds of invalid invocation). " +
+			"Oracle: independent counters on plain strings (difference iff the IUPAC sets are disjoint; transitions between unambiguous A<->G, C<->T; transversion iff one side within the purines and the other within the pyrimidines; gap modes from the flag help) base frequencies over the nucleotide cells of the selected columns (they sum to 1), and the published closed forms of raw, p, JC69, K2P, F81, F84 (Felsenstein-Churchill), TN93 (Tamura-Nei) with -ln x -> alpha(x^(-1/alpha)-1) for gamma, relative tolerance 1e-9; matrix predicates: symmetric, zero diagonal, 0 outside the ranges, no counted difference => |d| <= 1e-12, finite corrected d >= observed proportion, undefined estimator (saturation, a needed base frequency 0, no comparable site) => NaN, +-Inf or 2*max over the defined entries (never when that maximum is 0), values above the documented limit 1e5 => the value or the substitute; Distance() on encoded rows agrees with the matrix; the command prints the same matrix with 12 decimals (compared at 1e-9) and fails exactly on the invalid invocations. A pair whose smallest log argument is within 1e-6 of 0 is not judged. " +
 			"Non-trivial: at least one pair with >= 1 counted difference and >= 1 comparable site whose entry agreed with the estimator; distinct = distinct JSON form of the case",
 		Assumptions: []string{
 			"for ambiguity codes the published estimators are silent: the oracle follows the documented counting rule of the repository (incompatible sets = 1 difference; only certain transitions/transversions feed K2P/F84/TN93), and 'observed proportion of differing sites' is the proportion under the model's own counting rule",
-			"open points accepted in every reading and counted as ambiguous_accepted: base frequencies normalised over the nucleotide cells or over all cells of the selected columns (gap cells included, what the code does); --rm-gaps removing only gap columns (flag help) or every column with a non-ACGT residue (doc comment of selectedSites, what the code does); a pair without comparable site and without difference reported as 0 or as undefined; an estimator value above the documented limit 100000 reported as such or substituted",
+			"open points accepted in every reading and counted as ambiguous_accepted: --rm-gaps removing only gap columns (flag help) or every column with a non-ACGT residue (doc comment of selectedSites, what the code does); an estimator value above the documented limit 100000 reported as such or substituted",
 			"--gap-mut is read as in the flag help and the constants (1 = internal gaps only, 2 = all gaps); the stale struct comment says the opposite",
-			"two findings on the unchanged tree wait for a decision (described above `pending` in props/c07/c07_test.go, candidate repairs in props/c07/proposed-fix-*.patch) and are steered around, counted in excluded_known: the internal-gap counting mode ignores --rm-gaps; with gap cells in the base-frequency total F84/TN93 can fall below the observed proportion of differences",
+			"two findings of this check (internal-gap mode ignoring --rm-gaps; gap cells in the base-frequency total) were repaired in /repo (afd6281, 3a3c37f) and are now asserted; nothing is steered around (props/c07/NOTES-findings.md)",
 			"sequence ranges are drawn inside [0, n-1]; residues outside A,C,G,T, IUPAC codes and '-' are outside the quantifier",
 			"absence of violations is established on the explored cases only; the 2x2 (2x3) alignment space is enumerated completely for 38 option combinations",
 		},
